@@ -12,7 +12,7 @@ number of concurrent instances and any interleaving.
 FMTS = "qQiIx"
 KINDS = ["local", "map", "percpu", "packet", "pointer"]
 AMOUNTS = ["const5", "const64", "minus7", "register", "expression", "minus_register",
-           "minus_expression", "fixed_const"]
+           "minus_expression", "fixed_const", "const0", "minus0"]
 BIG = (1 << 40) + 3
 
 
@@ -25,7 +25,7 @@ def programs(tier):
             if kind == "pointer" and fmt in "qix":
                 continue          # mq/mi/mx exist too; the unsigned ones suffice for this kind
             for amount in AMOUNTS:
-                if tier == "quick" and kind in ("map", "percpu", "pointer") and amount in ("const64", "minus7"):
+                if tier == "quick" and kind in ("map", "percpu", "pointer") and amount in ("const64", "minus7", "minus0"):
                     continue
                 if amount == "fixed_const" and (fmt == "x" or kind in ("packet", "pointer")):
                     continue      # a decimal amount on an INTEGER variable (the whole part is added)
@@ -66,6 +66,8 @@ def build(kind, fmt, amount):
     def amt(self):
         if amount == "const5":
             return 5
+        if amount in ("const0", "minus0"):
+            return 0          # adding nothing is still one atomic access (no load / store pair)
         if amount == "fixed_const":
             return 3.0
         if amount == "const64":
@@ -124,6 +126,8 @@ def amount_value(amount, src64, fmt):
     scale = 100000 if fmt == "x" else 1
     if amount == "const5":
         return z3.BitVecVal(5 * scale, 64)
+    if amount in ("const0", "minus0"):
+        return z3.BitVecVal(0, 64)
     if amount == "fixed_const":
         return z3.BitVecVal(3, 64)          # the decimal 3.0 added to an integer variable
     if amount == "const64":
